@@ -423,6 +423,8 @@ class StmtMixin:
         if m is None:
             raise Unsupported(f"statement {type(node).__name__}", node)
         hint = self.c.hints.get(ast.unparse(node).split("\n")[0]) if self.c else None
+        if hint:
+            self._hints_seen.add(ast.unparse(node).split("\n")[0])
         if isinstance(node, (ast.If, ast.For, ast.While, ast.Try, ast.With, ast.FunctionDef)):
             outs = m(node, st)
         else:
@@ -688,6 +690,7 @@ class StmtMixin:
         s_then.assume(c)
         s_else = st.copy()
         s_else.assume(z3.Not(c))
+        self.narrow_opt(node.test, s_then, s_else)
         o1 = self.exec_block(node.body, s_then) if self.feasible(s_then) else []
         if not self.feasible(s_else):
             o2 = []
@@ -701,6 +704,28 @@ class StmtMixin:
             if m is not None:
                 return res + others + [(m, Outcome("normal"))]
         return res + others + n1 + n2
+
+    def narrow_opt(self, test, s_then, s_else):
+        """`if x is not None:` / `if x is None:` / `if x:` on an Optional local: the branch that knows x is
+        present sees x as the unwrapped value (flow-sensitive narrowing)."""
+        name, present_in_then = None, None
+        if isinstance(test, ast.Compare) and len(test.ops) == 1 and isinstance(test.left, ast.Name) and isinstance(test.comparators[0], ast.Constant) and test.comparators[0].value is None:
+            if isinstance(test.ops[0], ast.IsNot):
+                name, present_in_then = test.left.id, True
+            elif isinstance(test.ops[0], ast.Is):
+                name, present_in_then = test.left.id, False
+        elif isinstance(test, ast.Name):
+            name, present_in_then = test.id, True
+        elif isinstance(test, ast.UnaryOp) and isinstance(test.op, ast.Not) and isinstance(test.operand, ast.Name):
+            name, present_in_then = test.operand.id, False
+        if name is None:
+            return
+        tgt = s_then if present_in_then else s_else
+        v = tgt.env.get(name)
+        if v is not None and isinstance(v.ty, T.Opt) and not v.is_py:
+            s = v.ty.sort()
+            tgt.assume(s.is_some(v.term))
+            tgt.env[name] = Val(v.ty.inner, s.val(v.term))
 
     def feasible(self, st) -> bool:
         """Cheap in-process pruning of contradictory paths (unknown counts as feasible)."""
